@@ -4,6 +4,7 @@
 package apisim
 
 import (
+	"crypto/sha1"
 	"sync"
 	"time"
 	"bytes"
@@ -24,6 +25,7 @@ import (
 	httpapi "github.com/MichaelMure/git-bug/api/http"
 	"github.com/MichaelMure/git-bug/cache"
 	"github.com/MichaelMure/git-bug/entity"
+	"github.com/MichaelMure/git-bug/repository"
 	"github.com/MichaelMure/git-bug/zzverif/model"
 	"github.com/MichaelMure/git-bug/zzverif/sim"
 	"github.com/MichaelMure/git-bug/zzverif/verifrt"
@@ -403,9 +405,12 @@ func (e *Engine) Execute(p *sim.Plan, keepLog bool) (res *sim.RunResult) {
 			if !valid {
 				name = "wrongfield"
 			}
-			fw, _ := mw.CreateFormFile(name, "f.txt")
-			_, _ = fw.Write([]byte("uploaded " + st.S))
+			fw, _ := mw.CreateFormFile(name, "f.gif")
+			// what the handler's content sniffing takes for an image, different for every request
+			content := []byte("GIF89a uploaded " + st.S + fmt.Sprint(st.Id))
+			_, _ = fw.Write(content)
 			_ = mw.Close()
+			blobHash := fmt.Sprintf("%x", sha1.Sum(append([]byte(fmt.Sprintf("blob %d\x00", len(content))), content...)))
 			req := httptest.NewRequest("POST", "/upload/"+[]string{"__default", "__default", "nope"}[st.N%3], &buf)
 			req.Header.Set("Content-Type", mw.FormDataContentType())
 			rec := httptest.NewRecorder()
@@ -420,7 +425,22 @@ func (e *Engine) Execute(p *sim.Plan, keepLog bool) (res *sim.RunResult) {
 				if x.digest() != before {
 					add("state-changed-without-user", "an upload without a user changed refs, cache files or listed ids")
 				}
-			} else if x.digest() != before {
+				// refused means not stored: the file must not be in the object store afterwards
+				if _, err := rep.Raw.ReadData(repository.Hash(blobHash)); err == nil {
+					add("state-changed-without-user", "an upload without a user answered %d but the file is in the repository afterwards (blob %s; body %s)", rec.Code, blobHash[:8], sim.Trunc(rec.Body.String(), 120))
+				}
+				if strings.Contains(rec.Body.String(), "\"hash\"") {
+					add("anonymous-upload-accepted", "an upload without a user answered %d with a stored-file hash in the body: %s", rec.Code, sim.Trunc(rec.Body.String(), 160))
+				}
+			} else if valid && st.N%3 != 2 {
+				if rec.Code != 200 {
+					add("wrong-change", "a valid upload by the authenticated user was refused: %d %s", rec.Code, sim.Trunc(rec.Body.String(), 160))
+				} else if b, err := rep.Raw.ReadData(repository.Hash(blobHash)); err != nil || string(b) != string(content) {
+					add("wrong-change", "an accepted upload is not readable back with its content (blob %s): %v", blobHash[:8], err)
+				}
+				res.Probes["upload_auth_stored"]++
+			}
+			if st.K != "anon" && x.digest() != before {
 				add("collateral-change", "an upload changed refs, cache files or listed ids")
 			}
 			seq = append(seq, "u"+st.K)
